@@ -148,6 +148,18 @@ def check_axang(t, c, cls, thin=False):
                     ax, an = np.asarray(o[0], dtype=float), float(o[1])
                     if not (maxdiff(ax, axis) <= 1e-9 and abs(an - theta) <= 1e-12 * max(1, 1)):
                         t.fail("C10|%s|axis-angle-differs|%s" % (name, cls), dict(case, got_axis=ax, got_angle=an, axis=axis))
+            # the other representative of the same rotation (-q, negative scalar part): whatever (axis, angle) comes back must describe
+            # the same rotation -- cos(angle/2) axis-scaled half-vector equal to +-q, the sign being common to all four components
+            for name, fn in (("Quaternion(-q).to_axang", lambda: Quaternion(-wq).to_axang()),
+                             ("quat2axang(-q)", lambda: ori.quat2axang(-wq))):
+                o = do(t, "C10|%s|%s" % (name, cls), case, fn)
+                if o is not None:
+                    ax, an = np.asarray(o[0], dtype=float), float(o[1])
+                    back = np.array([math.cos(an / 2.0), *(math.sin(an / 2.0) * ax)])
+                    dd = min(maxdiff(back, wq), maxdiff(back, -wq))
+                    t.resid("axang(-q)", dd)
+                    if not dd <= 1e-9:
+                        t.fail("C10|%s|axis-angle-is-another-rotation|%s" % (name, cls), dict(case, got_axis=ax, got_angle=an, axis=axis))
             # matrix -> axis-angle: arccos of the trace, conditioning 1/sin(theta)
             if 1e-4 <= theta <= math.pi - 1e-4:
                 for name, fn in (("DCM.to_axisangle", lambda: DCM(R.copy()).to_axisangle()), ("DCM.to_axang", lambda: DCM(R.copy()).to_axang())):
